@@ -201,6 +201,46 @@ def run(res, replay=None):
         elif r == "fuel" or st > 4 * (len(b_) + 1):
             found |= res.violation("work:unbounded-iterations",
                                    "probe %s: a %d-byte buffer costs %s callbacks" % (what, len(b_), r), base)
+    # ---- sizes beyond 2^31 / 2^32: the entries of a flat group are never touched, so the claimed length n can be
+    # far larger than the bytes that exist (the real buffer ends right after the dimension, on the guard page: any read
+    # beyond it faults).  Expected verdict from exact integer arithmetic (= Checked.described_fit for this shape).
+    import c05
+    bs = c05.pairs_schema()
+    bc = prepare_fixed(bs, cfgs[:2])
+    if bc.error:
+        res.violation("driver-build:big-n", "large-n probe: " + bc.error[1][-300:], {"no_failing_input": True, "correspondence": "T1 probe"})
+    else:
+        W = {"u8": 1, "u16": 2, "u32": 4, "u64": 8}
+        il, meta = [], []
+        for m_ in bs.messages:
+            _, nt, bt = m_.name.split("_")
+            for (ng, bl) in ((40000, 60000), (65535, 65535), (65536, 65536), (3, 2 ** 31), (2 ** 31, 3), (2 ** 32 - 1, 2), (1, 2 ** 32),
+                             (255, 255), (2, 2 ** 33), (2 ** 20, 2 ** 20)):
+                if ng > c05.TMAX[nt] or bl > c05.TMAX[bt]:
+                    continue
+                exact = 8 + W[bt] + W[nt] + ng * bl
+                if exact >= 2 ** 63:
+                    continue
+                buf = bytes(8) + bl.to_bytes(W[bt], "little") + ng.to_bytes(W[nt], "little")
+                for n in (exact, exact - 1, exact + 7, 8 + W[bt] + W[nt]):
+                    il += ["use " + m_.name, "buf " + hx(buf), "sbcn %d" % n]
+                    meta.append((m_.name, ng, bl, n, exact))
+        for (cxx, std), exe in bc.exes.items():
+            rc, io, err = run_impl(exe, il)
+            if rc != 0 or len(io) != len(il):
+                found = True
+                res.violation("driver-crash:big-n", "large-n probe driver crashed (%s %s): %s" % (cxx, std, err[-300:]), {"stderr": err[-1500:]})
+                continue
+            for i, (mn, ng, bl, n, exact) in enumerate(meta):
+                got = io[3 * i + 2]
+                want = ("valid %d" % exact) if exact <= n else "invalid"
+                res.count(("big-n", mn, ng, bl, n, cxx, std), ng * bl >= 2 ** 31)
+                if got != want:
+                    found = True
+                    res.violation("inexact:large-size:%s" % ("accepts" if got.startswith("valid") else "rejects"),
+                                  "size_bytes_checked(%s with numInGroup=%d blockLength=%d, n=%d) = %s, expected %s (%s -std=%s)"
+                                  % (mn, ng, bl, n, got, want, cxx, std),
+                                  {"schema_xml": bc.xml, "message": mn, "numInGroup": ng, "blockLength": bl, "n": n, "observed": got, "expected": want})
     res.extra["outcome_distribution_model"] = dist
     if not ok_proof:
         proof_failure_violation(res, found)
